@@ -36,11 +36,29 @@ EvPeer ==
               !.dirty[c] = IF E.stage = "rset" /\ ~err THEN FALSE
                            ELSE IF E.stage \in {"mail", "data", "eod"} /\ err THEN TRUE
                            ELSE IF E.stage = "mail" /\ ~err THEN FALSE ELSE @]
+\* what the downstream answered to the transaction that carried request r (the peer reads r out of the MAIL address)
+PeerOf(r) == {k \in 1..(l - 1) : Tr[k].t = "peer" /\ Tr[k].m = r /\ Tr[k].stage \in {"mail", "rcpt", "data", "eod"}}
+NRcpt(r) == LET ks == {k \in 1..(l - 1) : Tr[k].t = "call" /\ Tr[k].req = r} IN IF ks = {} THEN 0 ELSE Tr[CHOOSE k \in ks : TRUE].nrcpt
+Good(k) == Tr[k].act = "code" /\ Cls(Tr[k].code) \in {2, 3}
+Count(r, st) == Cardinality({k \in PeerOf(r) : Tr[k].stage = st})
+AllFine(r) == /\ \A k \in PeerOf(r) : Good(k)
+              /\ \A j, k \in PeerOf(r) : Tr[j].conn = Tr[k].conn
+              /\ Count(r, "mail") = 1 /\ Count(r, "rcpt") = NRcpt(r) /\ Count(r, "data") = 1
+              /\ Count(r, "eod") = IF T.cfg.lmtp THEN NRcpt(r) ELSE 1
+AcceptedAt(r, i) == /\ \E k \in PeerOf(r) : Tr[k].stage = "rcpt" /\ Tr[k].i = i /\ Good(k)
+                    /\ \E k \in PeerOf(r) : Tr[k].stage = "eod" /\ Tr[k].i = (IF T.cfg.lmtp THEN i ELSE 0) /\ Good(k)
 EvCall == /\ E.t = "call" /\ P' = [P EXCEPT !.called = @ \cup {E.req}] /\ bad' = bad
 EvRet == /\ E.t = "ret"
          /\ P' = [P EXCEPT !.done = @ \cup {E.req}]
          \* every attempt receives the result of its own envelope, once
          /\ bad' = bad \cup Flag("C19_OwnResult", E.marker \in {0, E.req} /\ E.req \notin P.done /\ E.req \in P.called)
+                       \* the downstream accepted every step of this request's own transaction: nothing that happened to
+                       \* other requests on the same (reused) connection may turn that into a failure ...
+                       \cup Flag("C19_NoForeignFailure", AllFine(E.req) => /\ E.kind \in {"whole", "map"}
+                                                                           /\ \A i \in 1..Len(E.per) : E.per[i] = "ok")
+                       \* ... and nothing is reported delivered that the downstream did not accept in that transaction
+                       \cup Flag("C19_DeliveredWasAccepted", E.kind \in {"whole", "map"} =>
+                                       \A i \in 1..Len(E.per) : E.per[i] = "ok" => AcceptedAt(E.req, i - 1))
                        \cup Flag("C19_ResultIsRelayResult", E.kind \in {"whole", "map"} \/ (E.kind = "raise" /\ E.cls \in {"T", "P"}))
 EvEnd == /\ E.t = "end" /\ P' = P
          \* after time has been advanced past every timeout no request is left waiting
